@@ -145,6 +145,9 @@ pub struct Player {
     /// names that have (had) an observer: their values are polled around
     /// story-running calls so that notifications for unchanged values can be dropped
     pub observed_vars: Vec<String>,
+    /// values of the observed variables polled when the last story-running call
+    /// started from a story that was not in the middle of a sliced continue
+    pub polled: HashMap<String, J>,
 }
 
 fn res_ok(v: J) -> J {
@@ -184,6 +187,7 @@ impl Player {
             globals: Vec::new(),
             counted: Vec::new(),
             observed_vars: Vec::new(),
+            polled: HashMap::new(),
         }
     }
 
@@ -489,15 +493,20 @@ impl Player {
             name,
             "cont" | "contasync" | "maximally" | "eval" | "reset" | "path" | "choose"
         );
-        let mut before: HashMap<String, J> = HashMap::new();
-        if runs_story && let Some(story) = self.story.as_ref() {
+        // (a sliced continue keeps the poll taken when its first slice started)
+        if runs_story
+            && let Some(story) = self.story.as_ref()
+            && !story.verif_async_active()
+        {
+            self.polled.clear();
             for v in &self.observed_vars {
-                before.insert(
+                self.polled.insert(
                     v.clone(),
                     story.get_variable(v).map(|x| enc_value(&x)).unwrap_or(J::Null),
                 );
             }
         }
+        let before = self.polled.clone();
         let r = std::panic::catch_unwind(AssertUnwindSafe(|| self.exec(op)));
         if runs_story {
             self.ev.borrow_mut().retain(|e| {
